@@ -271,7 +271,12 @@ fn main() {
                 let idx = p * per + d;
                 let mut rng = Rng::new(mix(&[seed, 0xAC20, idx]));
                 let doc = refmodel::macrodoc::gen_macro_doc(&mut rng);
-                let hashes = "#".repeat(3);
+                // the raw string that carries the document must not be closed by the document itself
+                let mut nh = 3;
+                while doc.contains(&format!("\"{}", "#".repeat(nh))) {
+                    nh += 1;
+                }
+                let hashes = "#".repeat(nh);
                 src.push_str(&format!("// DOC {idx}\nfn doc_{idx}() -> bool {{\n    let m = toml::toml! {{\n{}\n    }};\n    report({idx}, m, r{hashes}\"{}\"{hashes})\n}}\n", doc.lines().map(|l| format!("        {l}")).collect::<Vec<_>>().join("\n"), doc));
                 calls.push_str(&format!("    if !doc_{idx}() {{ bad += 1; }}\n"));
             }
@@ -344,6 +349,24 @@ fn main() {
             let limit: u64 = arg_after(&args, "--limit").and_then(|s| s.parse().ok()).unwrap_or(u64::MAX);
             std::fs::create_dir_all(&out).unwrap();
             let progress = std::fs::File::create(out.join(format!("shard-{si}.progress"))).unwrap();
+            // per-case watchdog: a case normally takes milliseconds; one that is still running after
+            // CASE_LIMIT seconds ends the shard with status 124. The driver then re-runs the in-flight
+            // case alone under its own time limit: only if it is stuck there too is it a hang.
+            static CASE_START: std::sync::atomic::AtomicU64 = std::sync::atomic::AtomicU64::new(0);
+            if !cfg!(miri) {
+                let limit_s: u64 = std::env::var("VCHECK_CASE_LIMIT").ok().and_then(|s| s.parse().ok()).unwrap_or(90);
+                let t0 = std::time::Instant::now();
+                std::thread::spawn(move || loop {
+                    std::thread::sleep(std::time::Duration::from_millis(500));
+                    let started = CASE_START.load(std::sync::atomic::Ordering::Relaxed);
+                    let now = t0.elapsed().as_millis() as u64 + 1;
+                    if started != 0 && now.saturating_sub(started) > limit_s * 1000 {
+                        eprintln!("vcheck watchdog: the case in flight has been running for more than {limit_s} s");
+                        std::process::exit(124);
+                    }
+                });
+            }
+            let wd_t0 = std::time::Instant::now();
             let wls = check.workloads(tier, seed);
             for (wl, n) in wls {
                 if let Some(o) = &only {
@@ -361,12 +384,14 @@ fn main() {
                     if !cfg!(miri) {
                         let line = format!("{wl} {idx}\n{:40}", "");
                         let _ = progress.write_at(&line.as_bytes()[..line.len().min(64)], 0);
+                        CASE_START.store(wd_t0.elapsed().as_millis() as u64 + 1, std::sync::atomic::Ordering::Relaxed);
                     }
                     run_case(check.as_mut(), &mut ctx, &wl, idx);
                     idx += step;
                 }
             }
             let _ = progress.write_at(format!("done 0\n{:40}", "").as_bytes(), 0);
+            CASE_START.store(0, std::sync::atomic::Ordering::Relaxed);
             check.finish(&mut ctx);
             ctx.write_json(&out.join(format!("shard-{si}.json"))).unwrap();
             ctx.write_hashes(&out.join(format!("shard-{si}.hashes"))).unwrap();
